@@ -83,6 +83,32 @@ func runC15(c C15Case) string {
 		if d := model.Diff(want, model.TSV(drive.TSOf(back))); d != "" {
 			return fmt.Sprintf("ParseTimestamp(String()) via %q: %s", s, d)
 		}
+		// (2b) the other constructors build the same timestamp, and Equal agrees
+		// with the data model: equal to what was parsed back, different from a
+		// timestamp that differs in one component
+		if !back.Equal(its) || !its.Equal(back) {
+			return fmt.Sprintf("ParseTimestamp(String()) via %q is not Equal to the original (%s vs %s)", s, back.String(), its.String())
+		}
+		fs, err := ion.NewTimestampFromStr(s, its.GetPrecision(), its.GetTimezoneKind())
+		if err != nil || !fs.Equal(its) {
+			return fmt.Sprintf("NewTimestampFromStr(%q, %v, %v) gives %s, %v", s, its.GetPrecision(), its.GetTimezoneKind(), fs.String(), err)
+		}
+		nt := ion.NewTimestamp(its.GetDateTime(), its.GetPrecision(), its.GetTimezoneKind())
+		wantNT := t
+		if t.Prec == model.PSecond && t.FracDigits > 0 {
+			wantNT.FracDigits = 9 // NewTimestamp: nanosecond precision means nine digits
+		}
+		if d := model.Diff(model.TSV(wantNT), model.TSV(drive.TSOf(nt))); d != "" {
+			return fmt.Sprintf("NewTimestamp(GetDateTime(), GetPrecision(), GetTimezoneKind()) of %s gives %s: %s", s, nt.String(), d)
+		}
+		for _, o := range tsNeighbours(t) {
+			if !o.ValidFields() || model.Diff(want, model.TSV(o)) == "" {
+				continue
+			}
+			if its.Equal(drive.IonTS(o)) || drive.IonTS(o).Equal(its) {
+				return fmt.Sprintf("Timestamp.Equal holds between %s and %s", t.String(), o.String())
+			}
+		}
 		// the text reader on the reference printer's spelling
 		txt := printDoc([]model.Value{want}, &cycleChooser{k: c.Choice})
 		got, rerr := drive.Observe(ion.NewReaderBytes(txt.Doc))
@@ -122,6 +148,74 @@ func runC15(c C15Case) string {
 		}
 		return ""
 	})
+}
+
+// tsNeighbours are timestamps that differ from t in one component.
+func tsNeighbours(t model.TS) []model.TS {
+	var out []model.TS
+	add := func(f func(o *model.TS)) {
+		o := t
+		f(&o)
+		out = append(out, o)
+	}
+	add(func(o *model.TS) { o.Year = o.Year%9999 + 1 })
+	if t.Prec >= model.PMonth {
+		add(func(o *model.TS) { o.Month = o.Month%12 + 1; o.Day = min(o.Day, 28) })
+	}
+	if t.Prec >= model.PDay {
+		add(func(o *model.TS) { o.Day = o.Day%28 + 1 })
+	}
+	if t.Prec >= model.PMinute {
+		add(func(o *model.TS) { o.Hour = (o.Hour + 1) % 24 })
+		add(func(o *model.TS) { o.Min = (o.Min + 1) % 60 })
+		add(func(o *model.TS) { o.OffsetKnown = !o.OffsetKnown; o.Offset = 0 })
+		add(func(o *model.TS) { o.OffsetKnown = true; o.Offset = (o.Offset+1440+61)%2879 - 1439 })
+		// the same instant at another offset
+		add(func(o *model.TS) {
+			if o.Min < 59 && o.Offset < 1439 && o.OffsetKnown {
+				o.Min++
+				o.Offset++
+			}
+		})
+	}
+	if t.Prec == model.PSecond {
+		add(func(o *model.TS) { o.Sec = (o.Sec + 1) % 60 })
+		if t.FracDigits > 0 {
+			add(func(o *model.TS) {
+				unit := 1
+				for i := o.FracDigits; i < 9; i++ {
+					unit *= 10
+				}
+				o.Nanos = (o.Nanos + unit) % 1000000000
+			})
+		}
+		if t.FracDigits < 9 {
+			add(func(o *model.TS) { o.FracDigits++ }) // a trailing zero more
+		}
+		if t.FracDigits > 0 {
+			add(func(o *model.TS) {
+				unit := 1
+				for i := o.FracDigits; i < 9; i++ {
+					unit *= 10
+				}
+				if o.Nanos/unit%10 == 0 {
+					o.FracDigits-- // a trailing zero less
+				}
+			})
+		}
+	}
+	// one precision step down (fields beyond it dropped)
+	switch t.Prec {
+	case model.PMonth:
+		add(func(o *model.TS) { o.Prec = model.PYear; o.Month = 1; o.Day = 1 })
+	case model.PDay:
+		add(func(o *model.TS) { o.Prec = model.PMonth; o.Day = 1 })
+	case model.PSecond:
+		if t.Sec == 0 && t.Nanos == 0 && t.FracDigits == 0 {
+			add(func(o *model.TS) { o.Prec = model.PMinute })
+		}
+	}
+	return out
 }
 
 // ---- invalid timestamps
